@@ -8,7 +8,8 @@ EXPLANATION = ("Effect analysis over the whole compiled crate: (R1) inventory of
                "thread-locals / global registries are called; (R2) every store to a field of a chunk footer, found by TermFlow in every arena entry point with all callees inlined, "
                "is proved to target a footer other than the shared static sentinel: the must-facts at the store contain the false edge of is_empty(F) for the same F, or F was created "
                "(obtained from the global allocator) in the same call; (R3) auto-trait inventory: Bump has an explicit Send impl, no Sync impl and Cell fields. "
-               "Together: what an arena does is a function of its own fields and chunks, and no memory reachable from two arenas is ever written.")
+               "Together: what an arena does is a function of its own fields and chunks, and no memory reachable from two arenas is ever written."
+               ' (R4) nothing that can reach an arena, or carry values that can, is Send / Sync: the compile-verdict witnesses and the auto-trait audit of C05 (including payload probes: a generic container of non-Send elements must not be Send).')
 RULE = "rule instance = (rule, entry point, store site) / inventory entry; distinct by (rule, function, site)"
 
 
